@@ -159,7 +159,7 @@ def _count_failed_axioms(eng):
 def _proj_axioms(eng):
     import z3
     from pyvc.sorts import SeqE, SeqV, Ev, Val, S
-    from pyvc.models import PROJ_A, ALL_B, ALL_TAG
+    from pyvc.models import PROJ_A, ALL_B, ALL_TAG, PROJ_B, ALL_A
     a, b = z3.Consts("pj!a pj!b", SeqE)
     e = z3.Const("pj!e", Ev)
     v = z3.Const("pj!v", Val)
@@ -167,6 +167,12 @@ def _proj_axioms(eng):
     return [PROJ_A(z3.Empty(SeqE)) == z3.Empty(SeqV),
             z3.ForAll([a, b], PROJ_A(z3.Concat(a, b)) == z3.Concat(PROJ_A(a), PROJ_A(b)), patterns=[PROJ_A(z3.Concat(a, b))]),
             z3.ForAll([e], PROJ_A(z3.Unit(e)) == z3.Unit(Ev.a(e)), patterns=[PROJ_A(z3.Unit(e))]),
+            PROJ_B(z3.Empty(SeqE)) == z3.Empty(SeqV),
+            z3.ForAll([a, b], PROJ_B(z3.Concat(a, b)) == z3.Concat(PROJ_B(a), PROJ_B(b)), patterns=[PROJ_B(z3.Concat(a, b))]),
+            z3.ForAll([e], PROJ_B(z3.Unit(e)) == z3.Unit(Ev.b(e)), patterns=[PROJ_B(z3.Unit(e))]),
+            z3.ForAll([v], ALL_A(z3.Empty(SeqE), v), patterns=[ALL_A(z3.Empty(SeqE), v)]),
+            z3.ForAll([a, b, v], ALL_A(z3.Concat(a, b), v) == z3.And(ALL_A(a, v), ALL_A(b, v)), patterns=[ALL_A(z3.Concat(a, b), v)]),
+            z3.ForAll([e, v], ALL_A(z3.Unit(e), v) == (Ev.a(e) == v), patterns=[ALL_A(z3.Unit(e), v)]),
             z3.ForAll([v], ALL_B(z3.Empty(SeqE), v), patterns=[ALL_B(z3.Empty(SeqE), v)]),
             z3.ForAll([a, b, v], ALL_B(z3.Concat(a, b), v) == z3.And(ALL_B(a, v), ALL_B(b, v)), patterns=[ALL_B(z3.Concat(a, b), v)]),
             z3.ForAll([e, v], ALL_B(z3.Unit(e), v) == (Ev.b(e) == v), patterns=[ALL_B(z3.Unit(e), v)]),
@@ -310,3 +316,28 @@ contract("iface::Driver.__call__", keep=["debug", "ctx_id_", "tok_old", "tok_use
          ensures=GEN_RELY,
          raises=[{"cls": "BaseException", "ensures": GEN_RELY}])
 fields("Context")
+
+# ---------------------------------------------------------------- ThreadedWriter (C19): queue / thread axioms
+ghost("ENQ", "seq_val")        # everything ever put on the writer's queue, in order (other threads only append: rely)
+ghost("DEQ", "seq_val")        # everything taken off it, in order
+contract("iface::Queue.put", params=["self", "item"], returns="none",
+         notes="queue.SimpleQueue.put: atomically appends the item; never blocks, never raises (unbounded FIFO)",
+         modifies=["#ENQ"], ensures=[("enqueued", "ENQ == old(ENQ) + [item]")])
+contract("iface::Queue.get", params=["self"], returns="Any", ghosts={"MORE": "seq", "REST": "seq"},
+         notes="queue.SimpleQueue.get: blocks until an item is available and returns the oldest one not yet taken (FIFO); meanwhile other "
+               "threads may have appended more items (the queue history only grows)",
+         modifies=["#ENQ", "#DEQ"],
+         ensures=[("fifo: the oldest item not yet taken", "ENQ == old(ENQ) + MORE and DEQ == old(DEQ) + [result] and ENQ == DEQ + REST")])
+contract("iface::Thread.start", params=["self"], returns="none", modifies=["#THREADS"],
+         notes="threading.Thread.start: starts one new thread running the target",
+         ensures=[("started", "THREADS == old(THREADS) + [Ev('thread.start', self)]")])
+contract("iface::ext.twisted.application.service.Service.startService", params=["svc"], returns="none", modifies=["svc.running"],
+         notes="twisted Service.startService: marks the service running (Twisted is absent; stubbed for replay)")
+contract("iface::ext.twisted.application.service.Service.stopService", params=["svc"], returns="none", modifies=["svc.running"],
+         notes="twisted Service.stopService: marks the service stopped")
+contract("iface::ext.twisted.internet.threads.deferToThreadPool", params=["reactor", "pool", "f"], returns="Any", modifies=["#THREADS"],
+         notes="deferToThreadPool(reactor, pool, f): a Deferred that fires after f (here Thread.join) has run in a pool thread",
+         ensures=[("deferred-join", "THREADS == old(THREADS) + [Ev('defer', f)]")])
+contract("iface::Reactor.getThreadPool", params=["self"], returns="Any", modifies=[], notes="reactor.getThreadPool()")
+fields("ThreadedWriter", _destination="role:Dest", _queue="role:Queue", _mainReactor="role:Reactor", _thread="Opt[role:Thread]")
+fields("role:Thread", join="Any")
